@@ -14,7 +14,8 @@ G3 = np.array([0.5, -1.0, 2.0])
 
 # ----------------------------------------------------------------------------- dropout
 def dropout_events():
-    return ["T", "E", "Fb", "P"] + [f"F{m}" for m in range(8)]      # P: the user re-assigns layer.p (alternates between p and ALT_P[p])
+    # P: the user re-assigns layer.p (alternates between p and ALT_P[p]); Fn / Fm: draws just below and above the thresholds p, 1-p
+    return ["T", "E", "Fb", "P", "Fn", "Fm"] + [f"F{m}" for m in range(8)]
 
 ALT_P = {0.0: 0.5, 0.3: 0.75, 0.5: 0.2, 0.75: 0.3, 1.0: 0.5}
 
@@ -41,6 +42,13 @@ def run_dropout(p, hist):
             L.p = p; conv = None
         else:
             if e == "Fb": bits, u = None, [p, p, p]
+            elif e in ("Fn", "Fm"):
+                # draws 2^-10 below / above the threshold (p for `u > p`, 1-p for `u < 1-p`): the drop probability is p itself,
+                # not p rounded to some coarser grid
+                th = p if e == "Fn" else 1 - p
+                eps = 2.0 ** -10
+                u = [min(max(th - eps, 2.0 ** -20), 1 - 2.0 ** -20), min(max(th + eps, 2.0 ** -20), 1 - 2.0 ** -20), min(max(th - eps, 2.0 ** -20), 1 - 2.0 ** -20)]
+                bits = "rule"
             else:
                 m = int(e[1:]); bits = [(m >> j) & 1 for j in range(3)]
                 a, c = min(p, 1 - p) / 2, (max(p, 1 - p) + 1) / 2
@@ -61,6 +69,7 @@ def run_dropout(p, hist):
                 if bits is not None:
                     if p == 0: cands = {"A": [1, 1, 1], "B": [1, 1, 1]}
                     elif p == 1: cands = {"A": [0, 0, 0], "B": [0, 0, 0]}
+                    elif bits == "rule": cands = {"A": [int(x > p) for x in u], "B": [int(x < 1 - p) for x in u]}
                     else: cands = {"A": bits, "B": [1 - b for b in bits]}
                     exps = {k: (X3 * np.array(kp) / (1 - p) if p < 1 else np.zeros(3)) for k, kp in cands.items()}
                     ok = {k for k, ex_ in exps.items() if np.all(np.isfinite(yd)) and np.allclose(yd, ex_, rtol=1e-14, atol=0)}
